@@ -520,7 +520,7 @@ def exc_case(ctx, lim, i):
                 return res, None, lib
         out = tools.fresh(os.path.join(w, "prog"))
         # the library goes right after main so that what it leaves undefined can still pull archive members
-        a = [*kargs, *common, inputs[0]] + ([lib] if lib else []) + inputs[1:] + ([f"-Wl,-Map={w}/exe.map"] if linker == "ld" else [])
+        a = [*kargs, *common, inputs[0]] + (["-Wl,--no-as-needed", lib] if lib else []) + inputs[1:] + ([f"-Wl,-Map={w}/exe.map"] if linker == "ld" else [])
         res = tools.gcc_link(ctx, linker, a, out, driver=tools.GXX, timeout=400, extra_env=env if linker == "wild" else None)
         cmds.append(f"g++ -B<{linker}> " + " ".join(os.path.basename(x) if x.startswith("/") else x for x in a) + f" -o {sub}/prog"
                     + ("" if res.ok else f"   # rc={res.rc}"))
